@@ -76,7 +76,18 @@ def setup_inputs(ex: Exec, unit, contract: Contract):
         finally:
             ex.spec_mode = False
         tgt = ast.parse(pa, mode="eval").body
+        ex.spec_mode = True
+        try:
+            va = ex.eval(tgt)
+        finally:
+            ex.spec_mode = False
         ex.assign(tgt, vb)
+        # the merged object answers to both names: keep fields (and declared types) of either path
+        if isinstance(va, Ref) and isinstance(vb, Ref) and isinstance(ex.heap[va.oid], HObj) and isinstance(ex.heap[vb.oid], HObj):
+            oa, ob = ex.heap[va.oid], ex.heap[vb.oid]
+            for k, v in oa.fields.items():
+                ob.fields.setdefault(k, v)
+            ex.alias_paths.setdefault(ob.path, []).append(oa.path)
         ex.notes.append(f"alias world: {pa} is {pb}")
 
 
